@@ -227,6 +227,13 @@ func kafkaGoroutines() (int, string) {
 // Transport round trip: its stack contains async.resolve / async.reject, or it is
 // (*conn).run blocked in a channel send.
 func kafkaGoroutinesP() (int, string, bool) {
+	n, where, parked, _ := kafkaGoroutinesPO()
+	return n, where, parked
+}
+
+// kafkaGoroutinesPO also tells whether one of them is an orphaned Transport connection: a
+// (*conn).run that waits for requests (not inside a round trip).
+func kafkaGoroutinesPO() (int, string, bool, bool) {
 	buf := make([]byte, 1<<20)
 	for {
 		n := runtime.Stack(buf, true)
@@ -237,7 +244,7 @@ func kafkaGoroutinesP() (int, string, bool) {
 		buf = make([]byte, 2*len(buf))
 	}
 	n := 0
-	parked := false
+	parked, orphan := false, false
 	where := map[string]int{}
 	for _, blk := range bytes.Split(buf, []byte("\n\n")) {
 		lines := strings.Split(string(blk), "\n")
@@ -256,6 +263,9 @@ func kafkaGoroutinesP() (int, string, bool) {
 			(strings.Contains(lines[0], "[chan send") && strings.Contains(body, "(*conn).run")) {
 			parked = true
 		}
+		if strings.Contains(body, "(*conn).run") && !strings.Contains(body, "(*conn).roundTrip") && strings.Contains(lines[0], "[chan receive") {
+			orphan = true
+		}
 		top := ""
 		for _, l := range lines[1:] {
 			if strings.HasPrefix(l, kafkaPkg) {
@@ -273,7 +283,7 @@ func kafkaGoroutinesP() (int, string, bool) {
 		keys = append(keys, k)
 	}
 	sort.Strings(keys)
-	return n, strings.Join(keys, "/"), parked
+	return n, strings.Join(keys, "/"), parked, orphan
 }
 
 // frameName shortens "github.com/segmentio/kafka-go.(*Reader).run.func1(0x…)" or
